@@ -170,7 +170,7 @@ func C16(o *world.Obs) *Result {
 				if rawKey[f] {
 					continue // not judged: Go code conventionally does not see such keys
 				}
-				if model.SurelyDifferent(v.Req.Values(f), h.Values(f)) {
+				if model.SurelyDifferentIn(f, v.Req.Values(f), h.Values(f)) {
 					mm = fmt.Sprintf("%s: stored for %q, requested with %q", f, v.Req.Values(f), h.Values(f))
 				}
 			}
